@@ -182,6 +182,19 @@ func main() {
 			}
 			emit(w, runEditPair(c))
 		})
+	case "prunefile":
+		// the C16 pair (delete every excluded provider, bind again) of hand-written / minimised cases (corpus)
+		cases, err := parseCases(fs.Arg(0))
+		if err != nil {
+			fmt.Fprintln(os.Stderr, err)
+			os.Exit(2)
+		}
+		for i, c := range cases {
+			if i < *start {
+				continue
+			}
+			emit(w, runPrunePair(c))
+		}
 	case "neutralfile":
 		// the C13 variants of hand-written / minimised cases (corpus)
 		cases, err := parseCases(fs.Arg(0))
